@@ -88,6 +88,18 @@ func commitSite(s string) bool {
 // txProgram draws a transaction-heavy program.
 func txProgram(t *rapid.T, maxSteps int) drive.Program {
 	p := drive.Program{Cfg: gen.Config(t), Keys: gen.Keys(t, 6, 40)}
+	// A transaction buffers one operation per key, so the number of records in a
+	// commit is bounded by the pool size: a quarter of the cases use a pool of
+	// 150-400 keys so that commits of hundreds of records (several log buffers)
+	// really occur.
+	bigPool := rapid.IntRange(0, 3).Draw(t, "bigpool") == 0
+	if bigPool {
+		n := rapid.IntRange(150, 400).Draw(t, "bigpool_n")
+		p.Keys = p.Keys[:0]
+		for i := 0; i < n; i++ {
+			p.Keys = append(p.Keys, []byte(fmt.Sprintf("key-%04d", i)))
+		}
+	}
 	n := rapid.IntRange(2, maxSteps).Draw(t, "nsteps")
 	tag := uint32(1)
 	nk := len(p.Keys)
@@ -111,10 +123,15 @@ func txProgram(t *rapid.T, maxSteps int) drive.Program {
 				m = rapid.IntRange(2, 8).Draw(t, "m")
 			default:
 				m = rapid.IntRange(20, 300).Draw(t, "m")
+				if bigPool {
+					m = rapid.IntRange(150, 450).Draw(t, "m_big")
+				}
 			}
 			vo := gen.ValOpts{}
 			if m <= 8 {
 				vo.Big = rapid.Bool().Draw(t, "bigvals")
+			} else if bigPool {
+				vo.MaxSmall = rapid.SampledFrom([]int{64, 300, 600, 1200}).Draw(t, "maxsmall_big")
 			} else {
 				vo.MaxSmall = rapid.SampledFrom([]int{8, 64, 600}).Draw(t, "maxsmall")
 			}
@@ -134,6 +151,41 @@ func txProgram(t *rapid.T, maxSteps int) drive.Program {
 		}
 	}
 	return p
+}
+
+// walBatchSite: the sites inside the log append of a commit.
+func walBatchSite(s string) bool {
+	return strings.HasPrefix(s, "wal.batch.") || strings.HasPrefix(s, "wal.sync.") || s == "storage.batch.after_wal"
+}
+
+// genBigCommitCrash: a short prefix, then ONE commit of 150-450 records whose
+// log volume exceeds the 64 KiB log buffer, and a crash late inside that
+// commit's log append (the buffer may have spilled part of the batch).
+func genBigCommitCrash(t *rapid.T) drive.CrashCase {
+	p := drive.Program{Cfg: gen.Config(t)}
+	n := rapid.IntRange(150, 450).Draw(t, "records")
+	for i := 0; i < n; i++ {
+		p.Keys = append(p.Keys, []byte(fmt.Sprintf("key-%04d", i)))
+	}
+	tag := uint32(1)
+	// prefix: a few small writes so that "before" is not the empty state
+	for i := 0; i < rapid.IntRange(0, 4).Draw(t, "npre"); i++ {
+		p.Steps = append(p.Steps, drive.Step{Op: "put", K: rapid.IntRange(0, n-1).Draw(t, "pk"), V: &drive.Val{Len: rapid.IntRange(1, 40).Draw(t, "pl"), Tag: tag}})
+		tag++
+	}
+	avg := rapid.SampledFrom([]int{120, 300, 700}).Draw(t, "avglen") // 150 x 300 B and up exceeds 64 KiB together with keys and headers
+	var body []drive.TxOp
+	for i := 0; i < n; i++ {
+		if rapid.IntRange(0, 9).Draw(t, "bdel") == 0 {
+			body = append(body, drive.TxOp{Op: "del", K: i})
+		} else {
+			body = append(body, drive.TxOp{Op: "put", K: i, V: &drive.Val{Len: rapid.IntRange(avg/2, avg*3/2).Draw(t, "bl"), Tag: tag}})
+			tag++
+		}
+	}
+	p.Steps = append(p.Steps, drive.Step{Op: "tx", Tx: body, Commit: true})
+	return drive.CrashCase{Program: p, Rounds: []drive.CrashRound{{To: len(p.Steps), Late: true,
+		SelA: rapid.Uint32().Draw(t, "selA"), SelB: rapid.Uint32().Draw(t, "selB")}}}
 }
 
 func genCrash(t *rapid.T) drive.CrashCase {
@@ -162,10 +214,37 @@ func maxBody(p *drive.Program) int {
 	return m
 }
 
+// maxRecords: the largest number of distinct keys written by one committed transaction.
+func maxRecords(p *drive.Program) int {
+	m := 0
+	for _, s := range p.Steps {
+		if s.Op != "tx" || !s.Commit {
+			continue
+		}
+		seen := map[int]bool{}
+		for _, o := range s.Tx {
+			if o.Op != "get" {
+				seen[o.K] = true
+			}
+		}
+		if len(seen) > m {
+			m = len(seen)
+		}
+	}
+	return m
+}
+
 func TestPropCrash(t *testing.T) {
 	rapid.Check(t, func(t *rapid.T) {
-		c := genCrash(t)
-		f, classes := drive.RunCrashCase(&c, false, commitSite)
+		var c drive.CrashCase
+		filter := drive.SiteFilter(commitSite)
+		if rapid.IntRange(0, 2).Draw(t, "bigcommit") == 0 {
+			c = genBigCommitCrash(t)
+			filter = walBatchSite
+		} else {
+			c = genCrash(t)
+		}
+		f, classes := drive.RunCrashCase(&c, false, filter)
 		nt := false
 		for _, cl := range classes {
 			if cl == "crash_inside_operation" {
@@ -175,6 +254,9 @@ func TestPropCrash(t *testing.T) {
 		classes = append(classes, "kind:crash")
 		if maxBody(&c.Program) >= 20 {
 			classes = append(classes, "crash:body>=20")
+		}
+		if maxRecords(&c.Program) >= 147 {
+			classes = append(classes, "crash:commit_of>=147_records")
 		}
 		ev.R().Case(ev.Hash(&c), nt, classes, func() any { return &c })
 		if f != nil {
